@@ -26,6 +26,29 @@ def r1_number_text(m):
             # the printed number is the same reader's linecount
             nums = {A.text(n.value) for n in A.body_nodes(f.node) if isinstance(n, ast.Attribute) and n.attr == "linecount"}
             ok = ok and nums == {recv}
+            # the quoted text reaches the message untransformed
+            P = A.parents(f.node)
+            par = P.get(sub)
+            direct = isinstance(par, ast.FormattedValue) or (isinstance(par, ast.Call) and isinstance(par.func, ast.Attribute) and par.func.attr == "format")
+            if isinstance(par, ast.Assign) and isinstance(par.targets[0], ast.Name):
+                v = par.targets[0].id
+                assigns = [x for x in A.body_nodes(f.node) if isinstance(x, (ast.Assign, ast.AugAssign)) and
+                           v in (A.assigned_names(x.targets[0]) if isinstance(x, ast.Assign) else A.assigned_names(x.target))]
+                comp_bound = set()
+                for g in A.body_nodes(f.node):
+                    if isinstance(g, (ast.GeneratorExp, ast.ListComp, ast.SetComp, ast.DictComp)) and \
+                            any(v in A.assigned_names(c.target) for c in g.generators):
+                        comp_bound |= {id(x) for x in ast.walk(g)}
+                uses = [x for x in A.body_nodes(f.node) if isinstance(x, ast.Name) and x.id == v and isinstance(x.ctx, ast.Load)
+                        and id(x) not in comp_bound]
+                direct = len(assigns) == 1 and bool(uses) and all(isinstance(P.get(u), ast.FormattedValue) or
+                                                                  (isinstance(P.get(u), ast.Call) and A.text(P.get(u).func).endswith(".format")) for u in uses)
+            if ok and not direct:
+                ok = False
+                r.ob(False)
+                r.fail("%s|transformed" % f.qualname, "%s does not put `%s.source_lines[%s]` into the message as it is (it is sliced, split or "
+                       "otherwise rewritten first): the quoted text is not that line's text" % (f.qualname, recv, idx), m.loc(f, sub))
+                continue
             r.ob(ok, "%s: quotes %s.source_lines[%s], prints %s" % (f.qualname, recv, idx, sorted(nums)))
             if not ok:
                 r.fail("%s|%s" % (f.qualname, idx), "%s quotes `%s.source_lines[%s]` while printing the line number of %s: the quoted text "
@@ -65,8 +88,34 @@ def r2_reader_supplied(m):
     return r
 
 
+def r5_physical_lines(m):
+    r = RuleResult("C07.R5", "line numbers count newline-terminated physical lines: the string reader iterates a StringIO of the source")
+    r.floor = 1
+    k = m.key("FortranStringReader", "fparser.common.readfortran")
+    f = m.method(k, "__init__")
+    r.instances += 1
+    if f is None:
+        r.error("FortranStringReader.__init__ vanished")
+        return r
+    sup = [c for c in A.calls(f.node) if isinstance(c.func, ast.Attribute) and c.func.attr == "__init__"]
+    ok = False
+    what = None
+    if sup and sup[0].args:
+        a0 = sup[0].args[0]
+        what = A.text(a0)
+        if isinstance(a0, ast.Name):
+            defs = [n.value for n in A.body_nodes(f.node) if isinstance(n, ast.Assign) and A.text(n.targets[0]) == a0.id]
+            what = A.text(defs[0]) if len(defs) == 1 else what
+        ok = what in ("StringIO(string)", "io.StringIO(string)")
+    r.ob(ok, "FortranStringReader reads from %s" % what)
+    if not ok:
+        r.fail("FortranStringReader|source", "FortranStringReader iterates `%s` instead of StringIO(string): characters other than newline "
+               "(form feed, vertical tab, U+2028 ...) would be counted as line breaks and shift every reported line number" % what, m.loc(f))
+    return r
+
+
 def run(m, tier):
-    results = [r1_number_text(m), r2_reader_supplied(m), rr.rule_linecount(m, "C07.R3"), rr.rule_span(m, "C07.R4")]
+    results = [r1_number_text(m), r2_reader_supplied(m), rr.rule_linecount(m, "C07.R3"), rr.rule_span(m, "C07.R4"), r5_physical_lines(m)]
     expl = ("Decides narrow structural clauses of C07: wherever a message quotes a source line it is source_lines[linecount - 1] of the "
             "same reader whose linecount is printed; every FortranSyntaxError is raised with the function's reader parameter; the "
             "physical line counter is moved by exactly one per line taken/given back on every path and item spans are tied to it "
